@@ -79,8 +79,8 @@ package common
 //@ func ParseCustodianUpdateNodesExtra
 //@   property C34, C05
 //@   modifies nothing
-//@   ensures [chunks] err == nil ==> len(extra) >= 64 + custodianNodeExtraSize * custodianNodesMinimumCount + 64 &&
-//@       (len(extra) - 128) % custodianNodeExtraSize == 0 && result0 != nil && len(result0.Nodes) * custodianNodeExtraSize == len(extra) - 128
+//@   -- [chunks] is stated with the literal numbers of the rule (64 + 7 * 353 + 64 = 2599), not with the constants of the code
+//@   ensures [chunks] err == nil ==> len(extra) >= 2599 && (len(extra) - 128) % 353 == 0 && result0 != nil && len(result0.Nodes) * 353 == len(extra) - 128
 //@   ensures [shape] err == nil ==> result0.Custodian != nil && result0.Signature != nil &&
 //@       (forall k int :: {result0.Nodes[k]} 0 <= k && k < len(result0.Nodes) ==> NodeShape(result0.Nodes[k]))
 //@   ensures [nodes] err == nil ==> (forall k int :: {result0.Nodes[k]} 0 <= k && k < len(result0.Nodes) ==> NodeKeysParsed(result0.Nodes[k]))
@@ -183,6 +183,7 @@ package common
 //@ func EncodeCustodianNode
 //@   property C34
 //@   requires custodian != nil && payee != nil && signerSpend != nil && payeeSpend != nil && custodianSpend != nil
+//@   requires [signer-key] crypto.CanonicalScalar(seq(*signerSpend)) -- the signer's private spend key is a canonical scalar ((Key).Public panics otherwise); callers: the CLI command that builds a custodian update from the operator's own keys
 //@   modifies nothing
 //@   ensures [length] len(result) == custodianNodeExtraSize
 //@   ensures [action] result[0] == custodianNodeActionUpdate
